@@ -80,11 +80,11 @@ def run_once(ctx, mono, d, truth, order_names, lo, hi, ram_units, wit0, default_
     wit['sed_reads'] = reads
     wit['passes_over_the_seds'] = passes
     nothing_written = not (os.path.isdir(os.path.join(d, 'convolved')) and os.listdir(os.path.join(d, 'convolved')))
-    if exc is not None and nothing_written and must and ram_units * 8.0 < 16.0 and reads <= 1:
-        # a limit below one wavelength of float64 flux+error, refused before any pass over the SEDs started: it may hold no
-        # chunk at all (the package itself refuses such limits), i.e. it yields no chunk size: outside the quantifier
-        ctx.event('limit-too-small:refused')
-        return None
+    if exc is not None and nothing_written and must and reads <= 1:
+        # refused before any pass over the SEDs started and without writing anything: if the same window is served at a
+        # larger limit, this limit was too small to hold a chunk (it "yields no chunk size": outside the quantifier) - the
+        # caller decides once it has seen the other limits of the ladder
+        return ('refused-early', exc, wit)
     wrote = sorted(set(os.path.basename(p) for p in tr.produced(under=os.path.join(d, 'convolved'))))
     ondisk = sorted(os.listdir(os.path.join(d, 'convolved'))) if os.path.isdir(os.path.join(d, 'convolved')) else []
     # the files present afterwards are what "writes exactly one file per wavelength" is about; a file that was opened
@@ -152,6 +152,16 @@ def run_once(ctx, mono, d, truth, order_names, lo, hi, ram_units, wit0, default_
         if g['flux'].shape != ref_f.shape or not O.close(g['flux'], ref_f, 1e-12) or not O.close(g['err'], ref_e, 1e-12):
             ctx.violation('content:wrong-values', 'a file does not hold each model\'s SED flux/error at its wavelength',
                           dict(wit, file=j + 1, got=g['flux'][0], expected=ref_f[0]))
+        if truth.apertures is not None and truth.n_ap > 1:
+            apu = g['aperture_unit']
+            try:
+                ga = None if g['apertures'] is None else (np.asarray(g['apertures'], float) * u.Unit(apu if apu not in (None, 'AU') else 'au')).to(u.au).value
+            except Exception:
+                ga = None
+            if ga is None or ga.shape != np.shape(truth.apertures) or not O.close(ga, truth.apertures, 1e-12):
+                ctx.violation('content:apertures', 'the apertures stored with a file are not the SED apertures (in their order)', dict(wit, file=j + 1, got=g['apertures'], unit=apu, expected_au=truth.apertures))
+        if g['nmodels'] not in (None, truth.n_models) or g['nap'] not in (None, truth.n_ap):
+            ctx.violation('content:header-counts', 'NMODELS / NAP in the header do not match the table', dict(wit, file=j + 1, nmodels=g['nmodels'], nap=g['nap']))
         if g['filtwav'] is None or abs(g['filtwav'] / wav_desc[j] - 1) > 1e-12:
             ctx.violation('content:filtwav', 'FILTWAV is not the wavelength of the slice', dict(wit, file=j + 1, got=g['filtwav'], expected=wav_desc[j]))
     # returned table
@@ -162,7 +172,7 @@ def run_once(ctx, mono, d, truth, order_names, lo, hi, ram_units, wit0, default_
         tw = np.asarray(table['wav'].to(u.micron).value if hasattr(table['wav'], 'to') else table['wav'], float)
         tn = [x.decode() if isinstance(x, bytes) else str(x) for x in table['filter']]
     except Exception as e:
-        ctx.violation('table:unreadable', 'returned table cannot be read: %r' % (e,), wit)
+        ctx.raised(e, 'table:unreadable', 'returned table cannot be read: %r' % (e,), wit)
         return
     named = {n.strip(): w for n, w in zip(tn, tw) if n.strip()}
     want = {file_of[j].replace('.fits', '').replace('.gz', ''): wav_desc[j] for j in idx if 0 <= j < n_w}
@@ -185,7 +195,7 @@ def run(ctx):
     ctx.assume('a window end exactly on a tabulated wavelength: including or excluding it are both accepted (docstring: exclusive; code: inclusive below)',
                'an empty window must write zero files; returning an empty table or raising are both accepted',
                'file-effect trace: sys.addaudithook open/remove events',
-               'a memory limit below one wavelength of float64 flux+error that is refused before any pass over the SEDs yields no chunk size: outside the quantifier')
+               'a memory limit that is refused before any pass over the SEDs and without writing anything, while larger limits serve the same window, yields no chunk size: outside the quantifier')
     ctx.require_events('mono:run', 'file:checked', 'chunk-invariance', 'cube:nearest-slice')
     ctx.require_regimes('window:empty', 'window:single', 'chunk<n', 'chunk=n', 'chunk=1', 'window:default', 'window:other-unit', 'convolved-dir:pre-existing',
                         'package:sed-subdirectories', 'cube:no-uncertainties', 'cube:named-and-wavelength-filters', 'cube:aperture-dependent', 'cube:filter-other-unit')
@@ -217,28 +227,51 @@ def run(ctx):
                 # memory limits: a ladder from one wavelength of float32 flux+error up to twice the whole SED, so that chunk sizes
                 # 1..n_wav are reached whatever bytes-per-value the package accounts for (4 today; 8 would be honest for float64)
                 chunks = list(range(1, 2 * n_w + 2)) if n_w <= nexh else sorted(set([1, 2, 3, n_w // 2 + 1, n_w, n_w + 2, 2 * n_w, 2 * n_w + 1]))
+                chunks += [32 * (n_w + 1), 1024 * (n_w + 1)]          # ... and two generous limits (whatever else the package accounts for)
                 wunit = [None, None, u.nm, u.mm, u.AA][int(rng.integers(5))]
                 if wunit is not None:
                     ctx.regime('window:other-unit')
+                refused = []
+                served = []
                 for c in chunks:
                     pre = 'empty' if rng.random() < 0.3 else 'absent'
                     if pre == 'empty':
                         ctx.regime('convolved-dir:pre-existing')
                     wrote = run_once(ctx, mono, d, truth, order_names, lo, hi, c + 0.5, wit0, wunit=wunit, pre=pre)
+                    if isinstance(wrote, tuple) and wrote and wrote[0] == 'refused-early':
+                        refused.append((c, wrote[1], wrote[2]))
+                        wrote = None
+                    elif wrote is not None:
+                        served.append(c)
                     inside = sum(1 for w in truth.wav if lo < w < hi)
                     ctx.case(('win', ipk, lo, hi, c, ctx.shard), nontrivial=inside >= 1,
                              sample=dict(wit0, window=(lo, hi), chunk=c, wav=truth.wav, written=wrote) if inside == 1 and len(ctx.samples) < 2 else None)
                     if wrote is not None:
                         sets[c] = tuple(wrote)
+                # limits refused before anything was read: fine when they all lie below the smallest limit that served this window
+                for (c_, exc_, wit_) in refused:
+                    if served and c_ < min(served):
+                        ctx.event('limit-too-small:refused')
+                    else:
+                        ctx.raised(exc_, 'mono-raised', 'convolve_model_dir_monochromatic raised on a non-empty window (at a memory limit at which smaller limits served it, or at every limit): %r' % (exc_,), wit_)
+                        break
                 if len(set(sets.values())) > 1:
                     ctx.violation('chunk-size-changes-file-set', 'the set of files depends on the memory limit',
                                   dict(wit0, window=(lo, hi), by_chunk={str(k): v for k, v in sets.items()}))
                 ctx.event('chunk-invariance')
             # default window: everything
-            for c in (1, n_w, 2 * n_w + 1):
+            res_def = {}
+            for c in (1, n_w, 2 * n_w + 1, 1024 * (n_w + 1)):
                 ctx.regime('window:default')
-                run_once(ctx, mono, d, truth, order_names, -np.inf, np.inf, c + 0.5, wit0, default_window=True)
+                res_def[c] = run_once(ctx, mono, d, truth, order_names, -np.inf, np.inf, c + 0.5, wit0, default_window=True)
                 ctx.case(('default', ipk, c, ctx.shard), nontrivial=True)
+            ok_def = [c for c, r_ in res_def.items() if not (isinstance(r_, tuple) and r_ and r_[0] == 'refused-early')]
+            for c, r_ in res_def.items():
+                if isinstance(r_, tuple) and r_ and r_[0] == 'refused-early':
+                    if ok_def and c < min(ok_def):
+                        ctx.event('limit-too-small:refused')
+                    else:
+                        ctx.raised(r_[1], 'mono-raised', 'convolve_model_dir_monochromatic raised for the default window: %r' % (r_[1],), r_[2])
             ctx.rmdir(d)
 
     # ---- cube packages: wavelength instead of a filter name -> nearest tabulated slice ----
@@ -292,7 +325,7 @@ def run(ctx):
         try:
             ft = gen.make_fitter(flist, theta, d, gen.build_law(lw, lc), (0., 1.), (1.0, 2.0), use_memmap=False)
         except Exception as exc:
-            ctx.violation('cube:fitter-raised:%s' % ('no-uncertainties' if not with_unc else type(exc).__name__),
+            ctx.raised(exc, 'cube:fitter-raised:%s' % ('no-uncertainties' if not with_unc else type(exc).__name__),
                           'Fitter with wavelength filters raised: %r' % (exc,),
                           {'requested': [str(x) for x in flist], 'cube_wav': truth.wav, 'cube_desc': desc, 'cube_has_uncertainties': with_unc})
             ctx.rmdir(d)
